@@ -1,4 +1,4 @@
-SPECIFICATION GSpec
+SPECIFICATION Spec
 CONSTANTS
   Srv = {1, 2}
   Names = {"a", "b"}
@@ -16,8 +16,6 @@ CONSTANTS
   Dev_LookupStaged = FALSE
   Dev_RemovedForStaged = FALSE
   Dev_EnableErrorIgnored = FALSE
-  Tag = "T"
-  MaxLen = 99
-  SampleMod = 20
-VIEW View
+INVARIANTS TypeOK UniqueNames IdsIncreasing VisibleExactly EventsOnce LiveVisible
+VIEW MCView
 CHECK_DEADLOCK FALSE
